@@ -393,7 +393,7 @@ EXP_EXPECT = {
 }
 
 
-@rule("C19.exp-branches", props=["C19"], min_instances=6, mutants=[
+@rule("C19.exp-branches", props=["C19", "C12"], min_instances=6, mutants=[
     ("positive square uses cos", ("multivector", "                cosh = np.cosh\n                sinhc = lambda x: np.sinh(x) / x", "                cosh = np.cos\n                sinhc = lambda x: np.sinh(x) / x")),
     ("negative square takes sqrt(x) instead of sqrt(-x)", ("multivector", "                # Assume numpy\n                sqrt = lambda x: (-x) ** 0.5", "                # Assume numpy\n                sqrt = lambda x: x ** 0.5")),
     ("result combined as x*cosh + sinhc", ("multivector", "        return self * sinhc(l) + cosh(l)", "        return self * cosh(l) + sinhc(l)")),
